@@ -24,6 +24,7 @@ CONSTANTS
   Keyed = FALSE
   LateInitSel = FALSE
   Snap = "none"
+  SnapFails = FALSE
   Rst = "none"
   Rep = "rep"
   ReplayAtEnd = TRUE
